@@ -224,6 +224,13 @@ func (h *Hub) connectFoundService(remoteService *api.ServiceDetails, host, port,
 
 	h.registerConnection(shipConnection)
 
+	// the dial may have been on its way while the hub was shut down: Shutdown sets its flag
+	// before it collects the connections to close, so whatever it did not see gets closed here
+	if h.checkHasShutdown() {
+		shipConnection.CloseConnection(false, 0, "")
+		return errors.New("hub is shut down")
+	}
+
 	return nil
 }
 
